@@ -17,7 +17,11 @@ def read_contract(cls, connected):
            CANARY("C17/canary-read-consumes-nothing", "inb() == old(inb())")]
     ct = Contract(ST + "read", params={"self": T_(cls)}, requires=pre, returns=TStr, modifies=GH,
                   ensures=ens if connected else [P("C17/unconnected-read-is-an-error", "False")],
-                  raises={"TransportError": [P("C17/failed-read-writes-nothing", "outb() == old(outb())")]}, check_wf=False)
+                  raises={"TransportError": [P("C17/failed-read-writes-nothing", "outb() == old(outb())"),
+                                             # the reads that follow must still see whole lines of the stream: a failed read leaves the
+                                             # unread bytes alone or removes exactly the (undecodable) line it tried
+                                             P("C17/failed-read-stays-on-a-line-boundary", "inb() == old(inb()) or inb() == old(after_line(inb()))")]},
+                  check_wf=False)
     ct.raises_only_id = "C17+C03/raises-only"
     if not connected:
         ct.optional_outcomes = ("normal",)
